@@ -580,7 +580,7 @@ BASE_HASH = "5e341085901d5a04"
 def search(run, corr, deep):
     found = 0
     n = run.scale(6000, 60000) * (3 if deep else 1)
-    for w in oracle(run, corr, n)[:20]:
+    for w in sorted(oracle(run, corr, n), key=lambda w: len(w.get('def', '')) + len(str(w.get('value', ''))))[:20]:
         found += run.report_witness(w)
     # F13: confirm on the real code (timer-guarded); recorded known finding
     reqs = f13_requests()
